@@ -128,6 +128,40 @@ def multi_history(rng, length):
     return steps
 
 
+def multi_aba(rng):
+    """Systematic multi-handle histories: a view through a long-open handle, then other handles add / pack / clean (the
+    steps C08 speaks of: deletions and repacks are maintenance operations, a handle with an older snapshot may still
+    answer from it), then the same view through the same handle and through another one."""
+    setups = {
+        'loose': [{'name': 'add', 'h': 'h1', 'keys': ['k1'], 'via': 'bytes'}, {'name': 'add', 'h': 'h2', 'keys': ['k2'], 'via': 'bytes'}],
+        'packed': [{'name': 'add', 'h': 'h1', 'keys': ['k1'], 'via': 'bytes'}, {'name': 'add', 'h': 'h2', 'keys': ['k2'], 'via': 'bytes'},
+                   {'name': 'pack', 'h': 'hp', 'mode': 'NO', 'perpack': False, 'validate': True}],
+        'packedz-cleaned': [{'name': 'add', 'h': 'h2', 'keys': ['k1'], 'via': 'bytes'}, {'name': 'add', 'h': 'h2', 'keys': ['k2'], 'via': 'bytes'},
+                            {'name': 'pack', 'h': 'hp', 'mode': 'YES', 'perpack': True, 'validate': True}],
+    }
+    views = {
+        'has': {'name': 'has', 'keys': ['k1', 'k2', 'k3']}, 'get': {'name': 'get', 'keys': ['k1', 'k3']},
+        'meta': {'name': 'meta', 'keys': ['k2', 'k3']}, 'list': {'name': 'list'}, 'listpart': {'name': 'listpart'},
+    }
+    disturbances = {
+        'add-packz-pp': [{'name': 'add', 'h': 'h2', 'keys': ['k3'], 'via': 'bytes'},
+                         {'name': 'pack', 'h': 'hp', 'mode': 'YES', 'perpack': True, 'validate': True}],
+        'add-pack-clean': [{'name': 'add', 'h': 'h2', 'keys': ['k3'], 'via': 'stream'},
+                           {'name': 'pack', 'h': 'hp', 'mode': 'NO', 'perpack': False, 'validate': False},
+                           {'name': 'clean', 'h': 'hp', 'vacuum': False}],
+        'clean-vacuum': [{'name': 'clean', 'h': 'hp', 'vacuum': True}],
+        'add': [{'name': 'add', 'h': 'h2', 'keys': ['k3'], 'via': 'bytes'}],
+    }
+    out = []
+    for setup in setups.values():
+        for view in views.values():
+            for disturbance in disturbances.values():
+                steps = [dict(x) for x in setup] + [dict(view, h='h1')] + [dict(x) for x in disturbance]
+                steps += [dict(view, h='h1'), dict(view, h='h2'), {'name': 'meta', 'h': 'h1', 'keys': ['k1', 'k2', 'k3']}]
+                out.append(({'hash': 'sha256', 'prefix': 2, 'zlevel': 1, 'target': rng.choice([50, 10 ** 9])}, steps))
+    return out
+
+
 def tlc_multi_histories(num, depth, seed):
     """Behaviours of MC_Multi generated by TLC, as executable multi-handle histories (spec -> code)."""
     from .. import tlc  # pylint: disable=import-outside-toplevel
@@ -169,9 +203,13 @@ def check_C08(report):
     for steps in tlc_multi_histories(60 if quick else 1500, 14, common.seed() + 5):
         cfg = {'hash': 'sha256', 'prefix': 2, 'zlevel': 1, 'target': rng.choice([50, 10 ** 9])}
         extra.append((cfg, steps))
+    n_sim = len(extra)
+    aba = multi_aba(rng)
+    extra += aba
     n, length = (200, 16) if quick else (4000, 30)
     seq.run_histories(report, 'C08', n, length, ['C08'], extra_histories=extra, generator=multi_history, handles=HANDLES)
-    report.set('histories_from_tlc_simulation', len(extra))
+    report.set('histories_from_tlc_simulation', n_sim)
+    report.set('systematic_aba_histories', len(aba))
     report.assumptions += ASSUME
 
 
@@ -219,3 +257,8 @@ def check_C14(report):
                 combos.add((trace['cfg']['hash'], kind, step['z'], step['budget'], step['iterable'], step['callback']))
     report.set('import_parameter_combinations', len(combos))
     report.assumptions += ASSUME
+
+
+def replay(data) -> int:
+    """--replay for every check of this module: the recorded history is executed again and monitored."""
+    return seq.replay(data)
